@@ -16,6 +16,7 @@ edit satisfies C01.
 from __future__ import annotations
 
 import ast
+import re
 
 from ..model import AnalysisError, norm, walk_no_nested, call_name
 from ..consteval import FuncTok
@@ -393,13 +394,13 @@ from .atomic import Flow, VALIDATOR_RE, validator_calls, PAIRS
 
 # reviewed instances: (function qualname, prefix of the reported construct) -> reason it cannot violate the property
 REVIEWED = {
-    ('_put_one_Raise_exc', '_put_one_exprlike_optional(self, code, idx'):
+    ('_put_one_Raise_exc', '_put_one_exprlike_optional(self, code, idx', 'call to _put_one_exprlike_optional whose own body'):
         'deleting Raise.exc first deletes the dependent `cause` (a complete edit); the following delete of `exc` runs with '
         'code=None, can_del=True, an index already rejected by the dispatcher for this non-list field, and a deletion location '
         'that exists whenever the child exists: it cannot be refused',
-    ('_put_one_ExceptHandler_type', '_put_one_exprlike_optional(self, code, idx'):
-        'same shape as Raise.exc: the dependent `name` is removed first, the delete of `type` with code=None cannot be refused '
-        '(the except* case is rejected before the first splice)',
+    ('_put_one_ExceptHandler_type', '_put_one_exprlike_optional(self, code, idx', 'call to _put_one_exprlike_optional whose own body'):
+        ('same shape as Raise.exc: the dependent `name` is removed first, the delete of `type` with code=None cannot be refused '
+         '(the except* case is rejected before the first splice: premise checked on every run)', 'except_star_rejected_first'),
     ('_get_slice_stmtlike_old', "raise ValueError('cannot specify `one=True` if getting multiple statements')"):
         'one=True is passed only by _get_one_stmtlike with the range (idx, idx + 1), i.e. exactly one statement; the source marks '
         'the raise "doesn\'t currently happen" (internal invariant, not a request)',
@@ -413,6 +414,77 @@ REVIEWED = {
         're-put: the old docstring is deleted by a complete edit, then the new one is put; `text` is the output of '
         'repr_str_multiline (always a valid string literal statement) and the options were validated by check_options at entry',
 }
+
+
+def premise_except_star_rejected_first(ctx, ef, fi) -> bool:
+    """The handler refuses `except*` by an explicit raise under a test that asks is_except_star(), and that raise precedes every splice / store."""
+    from ..struct import enclosing_tests
+    par = parent_map(fi.node)
+    first_mut = min([c.lineno for c in walk_no_nested(fi.node) if isinstance(c, ast.Call) and call_name(c) == '_put_src'] +
+                    [a.lineno for a in walk_no_nested(fi.node) if isinstance(a, ast.Assign) and any(isinstance(t, ast.Attribute) for t in a.targets)] +
+                    [10 ** 9])
+    for r in walk_no_nested(fi.node):
+        if isinstance(r, ast.Raise) and r.lineno < first_mut:
+            tests = enclosing_tests(fi.node, r, par)
+            vals = {}
+            for a in walk_no_nested(fi.node):
+                if isinstance(a, ast.Assign):
+                    for t_ in a.targets:
+                        if isinstance(t_, ast.Name):
+                            vals.setdefault(t_.id, []).append(a.value)
+                elif isinstance(a, ast.NamedExpr):
+                    vals.setdefault(a.target.id, []).append(a.value)
+            # a local that holds the answer of is_except_star() - on every path that binds it
+            asks = {k for k, vs in vals.items() if all(any(isinstance(x, ast.Call) and call_name(x) == 'is_except_star' for x in ast.walk(v)) for v in vs)}
+            if any((isinstance(x, ast.Call) and call_name(x) == 'is_except_star') or (isinstance(x, ast.Name) and x.id in asks)
+                   for t, _ in tests for x in ast.walk(t)):
+                return True
+    return False
+
+
+PREMISES = {'except_star_rejected_first': premise_except_star_rejected_first}
+
+
+def reviewed_reasons(ctx, ef, fi, k, how):
+    """Reasons of the REVIEWED entries that cover construct `k` reported for `fi` with explanation `how` (an entry may name the kind of
+    rejection it reviewed, and a premise that is re-established structurally on every run)."""
+    out = []
+    for key, val in REVIEWED.items():
+        q, pre = key[0], key[1]
+        if q != fi.qualname or not k.startswith(pre):
+            continue
+        if len(key) > 2 and not how.startswith(key[2]):
+            continue
+        reason, premise = (val, None) if isinstance(val, str) else val
+        if premise is not None and not PREMISES[premise](ctx, ef, fi):
+            continue
+        out.append(reason)
+    return out
+
+
+def row_info_functions(ctx):
+    """{handler function key: [info FuncInfo]}: the `getinfo` slot of the put-one rows a handler serves."""
+    cache = getattr(ctx, '_row_infos', None)
+    if cache is not None:
+        return cache
+    cache = {}
+    P1 = ctx.ev.get('fst_put_one', '_PUT_ONE_HANDLERS')
+    for row in P1.values():
+        if isinstance(row, tuple) and len(row) == 3 and isinstance(row[1], FuncTok):
+            gi = getattr(row[2], 'fields', {}).get('getinfo') if hasattr(row[2], 'fields') else getattr(row[2], 'getinfo', None)
+            if isinstance(gi, FuncTok):
+                for h in ctx.repo.mod(row[1].module).func(row[1].qualname):
+                    for g in ctx.repo.mod(gi.module).func(gi.qualname):
+                        if g not in cache.setdefault(h.key, []):
+                            cache[h.key].append(g)
+    ctx._row_infos = cache
+    return cache
+
+
+def asks_row_info(ctx, cal) -> bool:
+    """Does `cal` consult the info function of the row it is called for (`static.getinfo(...)`)?"""
+    return any(isinstance(c, ast.Call) and ((isinstance(c.func, ast.Attribute) and c.func.attr == 'getinfo') or
+                                            (isinstance(c.func, ast.Name) and c.func.id == 'getinfo')) for c in walk_no_nested(cal.node))
 
 
 def early_raisers(ctx, ef):
@@ -458,6 +530,12 @@ def raise_sources(ctx, ef, fi, flow, node, disj, consts):
                         if own_raise_feasible(ef, cal, cc):
                             srcs.append((x, f'call to {cal.qualname} whose own body can reject the request ({early[cal.key]})'))
                             break
+                # the callee asks the info function of the table row this handler serves: that function must not reject either
+                infos = row_info_functions(ctx).get(fi.key)
+                if infos and asks_row_info(ctx, cal):
+                    for g in infos:
+                        if ef.raises(g, {}):
+                            srcs.append((x, f'info function {g.qualname} of the table row, consulted by {cal.qualname}, can reject the request'))
     return srcs
 
 
@@ -541,6 +619,31 @@ def roots_for_r123(ctx, ef):
     return out
 
 
+def reviewed_through_worker(ctx, ef, fi, how):
+    """A reviewed raise that was moved, with the arm it sits in, into a private worker: the review is about the raise statement and the function it
+    is reached from.  It carries over when the worker is called by that function only and *every* request-dependent raise of the worker's own
+    body is a reviewed construct of that function."""
+    m = re.match(r'call to (\S+) whose own body can reject the request', how)
+    if not m:
+        return []
+    workers = [w for w in ctx.repo.mod(fi.module).func(m.group(1)) if not isinstance(w.node, ast.Lambda)] if m.group(1) in ctx.repo.mod(fi.module).funcs else []
+    if len(workers) != 1 or not workers[0].name.startswith('_'):
+        return []
+    w = workers[0]
+    callers = {f.key for f in ctx.repo.all_funcs() if not isinstance(f.node, ast.Lambda) and f is not w and
+               any(isinstance(c, ast.Call) and call_name(c) == w.name for c in ast.walk(f.node))}
+    if callers != {fi.key}:
+        return []
+    reasons = []
+    for n in walk_no_nested(w.node):
+        if isinstance(n, ast.Raise) and ef.is_user_raise(w, n) and not is_reraise(w, n):
+            rv = reviewed_reasons(ctx, ef, fi, norm(n, 80), 'explicit raise')
+            if not rv:
+                return []
+            reasons.append(rv[0])
+    return reasons
+
+
 def check_validate_then_mutate(ctx, ef):
     ctx.rule('R12.3', 'no user-triggerable raise (explicit, or through a callee that can raise one) is reachable after the first '
                       'mutation of the tree of `self` in any kernel function (path sensitive, constant-specialised callees)', 150)
@@ -568,9 +671,11 @@ def check_validate_then_mutate(ctx, ef):
             if k in seen:
                 continue
             seen.add(k)
-            rv = [r for (q, pre), r in REVIEWED.items() if q == fi.qualname and k.startswith(pre)]
+            rv = reviewed_reasons(ctx, ef, fi, k, how)
+            if not rv:
+                rv = reviewed_through_worker(ctx, ef, fi, how)
             if rv:
-                ctx.ok('R12.3', f'{fi.module}|{fi.qualname}|reviewed: {k}', sample={'reviewed': fi.qualname, 'reason': rv[0][:120]})
+                ctx.ok('R12.3', f'{fi.module}|{fi.qualname}|reviewed: {k}', sample={'reviewed': fi.qualname, 'how': how[:100], 'reason': rv[0][:120]})
                 continue
             real.append((k, line, how, state))
         if not real:
